@@ -777,8 +777,48 @@ func ownerLaunchedByCaller(p *Prog, ce *ChanEngine, op *ChanOp) (bool, string) {
 	for _, r := range ce.recvs[fld] {
 		loopFns[r.Func.Root()] = true
 	}
-	poster := op.Func.Root()
+	return ownerLaunchedByCallerOf(p, ce, op.Func.Root(), loopFns, 2)
+}
+
+// ownerLaunchedByCallerOf: poster is a goroutine root whose every launch follows the launch of the owner's loop — or
+// a helper that is only called (synchronously) by such functions.
+func ownerLaunchedByCallerOf(p *Prog, ce *ChanEngine, poster *FuncInfo, loopFns map[*FuncInfo]bool, depth int) (bool, string) {
 	n, okN := 0, 0
+	if poster.Obj != nil && depth > 0 {
+		launched := false
+		for _, l := range ce.Launches() {
+			if l.Root != nil && l.Root.Root() == poster {
+				launched = true
+			}
+		}
+		if !launched {
+			callers, good := 0, 0
+			via := ""
+			for _, h := range p.Funcs {
+				if h.Body == nil {
+					continue
+				}
+				hin := info(h)
+				inspectNoLit(h.Body, func(m ast.Node) bool {
+					if cl, ok := m.(*ast.CallExpr); ok && callee(hin, cl) == poster.Obj {
+						callers++
+						if _, isGo := p.Parent(cl).(*ast.GoStmt); isGo {
+							return true
+						}
+						if ok, how := ownerLaunchedByCallerOf(p, ce, h.Root(), loopFns, depth-1); ok {
+							good++
+							via = how
+						}
+					}
+					return true
+				})
+			}
+			if callers > 0 && callers == good {
+				return true, fmt.Sprintf("%s is only called by functions of which: %s", poster.QName(), via)
+			}
+			return false, ""
+		}
+	}
 	for _, l := range ce.Launches() {
 		if l.Root == nil || l.Root.Root() != poster || l.Site.Func.Root() == poster {
 			continue
